@@ -63,6 +63,20 @@ def build(scen, t0=0.0, nsteps=12):
         j1 = Revolute(system.origin, b1, 1, r_OJ0=np.zeros(3), A_IJ0=np.eye(3), name="rev")
         j2 = Spherical(b1, b2, r_OJ0=np.array([1.0, 0, 0]), name="sph")
         system.add(b1, b2, j1, j2, Force(1.0 * g, b1, name="g1"), Force(0.7 * g, b2, name="g2"))
+    elif scen in ("link_slider", "link_cylinder"):
+        # origin --Revolute(y)-- link --Prismatic|Cylindrical(x of the link)-- slider: a joint of the PROJECTED family whose first partner
+        # is a moving body (its body-fixed joint frames must survive re-initialisation; seeded C24-k)
+        from cardillo.constraints import Prismatic, Cylindrical
+
+        w = 1.2
+        b1 = rb(mass=1.0, r=(0.5, 0, 0), om=(0, w, 0), v=tuple(np.cross([0, w, 0], [0.5, 0, 0])), name="link")
+        s_dot = 0.4
+        b2 = rb(mass=0.6, r=(0.9, 0, 0), om=(0, w, 0), v=tuple(np.cross([0, w, 0], [0.9, 0, 0]) + np.array([s_dot, 0, 0])), name="slider")
+        j1 = Revolute(system.origin, b1, 1, r_OJ0=np.zeros(3), A_IJ0=np.eye(3), name="rev")
+        J2 = Prismatic if scen == "link_slider" else Cylindrical
+        j2 = J2(b1, b2, 0, r_OJ0=np.array([0.9, 0, 0]), A_IJ0=np.eye(3))
+        j2.name = "slide"
+        system.add(b1, b2, j1, j2, Force(1.0 * g, b1, name="g1"), Force(0.6 * g, b2, name="g2"))
     elif scen in ("rev_spring_force", "rev_spring_compliance", "rev_kv", "rev_pd", "rev_kv_fast", "rev_kv_back"):
         A0 = quat_to_A(axis_angle_quat([0.3, -1.2, 2.0], 0.7))
         p0 = axis_angle_quat([0.3, -1.2, 2.0], 0.7)
@@ -113,7 +127,7 @@ def build(scen, t0=0.0, nsteps=12):
     return system
 
 
-SCENARIOS = ["chain", "rev_spring_force", "rev_spring_compliance", "rev_kv", "rev_pd", "rev_kv_fast", "rev_kv_back", "maxwell", "shared_u0", "ball_plane", "two_spheres"]
+SCENARIOS = ["chain", "link_slider", "link_cylinder", "rev_spring_force", "rev_spring_compliance", "rev_kv", "rev_pd", "rev_kv_fast", "rev_kv_back", "maxwell", "shared_u0", "ball_plane", "two_spheres"]
 CONTACT = {"ball_plane", "two_spheres"}
 SOLVERS = ["Rattle", "BackwardEuler", "Moreau", "ScipyIVP"]
 
